@@ -675,7 +675,7 @@ def gen_cases(tier, rng):
             a = (nxt[0], kind, qs, p)
             nxt[0] += 1
             form = rng.choice(["same", "same", "same", "distinct", "barrier", "barrier2", "qs", "param", "triple", "bar_before",
-                               "bar_before_sep"])
+                               "bar_before_sep", "sandwich", "sandwich"])
             if form == "same":
                 ins = [a, a]
             elif form == "distinct":
@@ -693,6 +693,20 @@ def gen_cases(tier, rng):
                 ins = [a, (a[0], kind, list(qs), (p + 0.5) if p is not None else None)]
             elif form == "triple":
                 ins = [a, a, a]
+            elif form == "sandwich":
+                # the same gate object around ONE other gate (which may write one of its qubits)
+                mk = rand_kind(rng, n, barriers=False)
+                if kind_arity(mk) > n:
+                    mk = rng.choice(["X", "H"])
+                mqs = rng.sample(range(n), kind_arity(mk))
+                if rng.random() < 0.6 and qs:
+                    mqs[-1] = rng.choice(qs)      # act on a qubit of the outer gate
+                    if len(set(mqs)) != len(mqs):
+                        mqs = [mqs[-1]] if kind_arity(mk) == 1 else rng.sample(range(n), kind_arity(mk))
+                if len(qs) >= 2 and rng.random() < 0.5:
+                    mk, mqs = rng.choice(["X", "H"]), [rng.choice(qs[:-1])]   # writes a control of the outer gate
+                ins = [a, (nxt[0], mk, mqs, kind_param(rng, mk)), a]
+                nxt[0] += 1
             elif form == "bar_before_sep":
                 ins = [(nxt[0], "Barrier", [], None), a, (nxt[0] + 1, "Barrier", [], None), a]
                 nxt[0] += 2
@@ -783,6 +797,7 @@ def run(tier, seed):
     # ---- verdict
     seen_defects = {}
     silent = {}
+    later_broken = []
     n_num = 0
     dist = {}
     distinct = set()
@@ -809,8 +824,7 @@ def run(tier, seed):
         if not ok_expl:
             if code == 99:
                 if not any(d is None for d, _ in fails):  # else already reported with its failing input
-                    chk.broken("model and implementation differ and no property failure explains it",
-                               dict(case=case, implementation=replay["implementation"], code=code))
+                    later_broken.append(dict(case=case, implementation=replay["implementation"], code=code))
             else:  # today's behaviour on an input where it does not change the action
                 silent.setdefault(expl, []).append(dict(case=case, implementation=replay["implementation"], code=code))
     for d, lst in silent.items():
@@ -826,6 +840,9 @@ def run(tier, seed):
         else:
             for text, replay in lst[:3]:
                 chk.violation(f"[{d}] {text}", replay)
+    # reported after the failing inputs, so that those come first
+    for d in later_broken[:3]:
+        chk.broken("model and implementation differ and no property failure explains it", d)
     if coq_err:
         chk.broken("Chk_QCircuit could not be evaluated", coq_err[:3])
     for e in ser_errors[:3]:
